@@ -604,12 +604,14 @@ def hermetic_options(user_json=None, pwd_json=None):
 
 
 class CaptureSha1:
-    """Record every string handed to `hashlib.sha1` *as seen from ffcx.naming*."""
+    """Record everything handed to `hashlib.sha1` *as seen from ffcx.naming*: `.strings` the
+    pre-hash strings of compute_signature, `.blobs` the byte strings of evaluation points."""
 
     def __enter__(self):
         import ffcx.naming
 
         self.strings = []
+        self.blobs = []
         self._orig = ffcx.naming.hashlib
         outer = self
 
@@ -618,7 +620,15 @@ class CaptureSha1:
                 return getattr(_hashlib, name)
 
             def sha1(self, data=b"", **kw):
-                outer.strings.append(bytes(data).decode("utf-8"))
+                raw = bytes(data)
+                try:
+                    txt = raw.decode("utf-8")
+                except UnicodeDecodeError:
+                    txt = None
+                if txt is not None and (";form;" in txt or ";expression;" in txt):
+                    outer.strings.append(txt)  # a pre-hash string of compute_signature
+                else:
+                    outer.blobs.append(raw)  # the bytes of an evaluation-point array
                 return _hashlib.sha1(data, **kw)
 
         ffcx.naming.hashlib = _Shim()
@@ -701,18 +711,11 @@ def sexp_env():
 
 
 def sexp_points(a) -> str:
-    """ndarray -> model points; arrays outside the modelled shape/dtype travel as opaque repr text."""
-    if isinstance(a, np.ndarray) and a.ndim == 2 and a.dtype in (np.float64, np.float32) and a.size > 0 \
-            and np.all(np.isfinite(a)):
-        rows = []
-        for r in a:
-            cells = []
-            for x in r:
-                n, d = float(x).as_integer_ratio()
-                cells.append(f"({n} {d.bit_length() - 1})")
-            rows.append("(" + " ".join(cells) + ")")
-        return f"(points {'true' if a.dtype == np.float32 else 'false'} " + " ".join(rows) + ")"
-    return f"(repr {sexp_str(repr(a))})"
+    """ndarray -> model points `(pts dtype.str (shape…) sha1-hex-of-bytes)`; the digest of the bytes
+    is computed here, independently of ffcx.naming (it is a parameter of the model)."""
+    c = np.ascontiguousarray(a)
+    dig = _hashlib.sha1(c.tobytes()).hexdigest()
+    return f"(pts {sexp_str(c.dtype.str)} ({' '.join(str(int(n)) for n in c.shape)}) {dig})"
 
 
 def sexp_items(d: dict) -> str:
